@@ -978,7 +978,9 @@ func c03Reserved(c *core.Ctx) {
 		key := core.FuncName(fn) + ":only-reserved-filter"
 		// every Header.Add/Set call: its dominating facts inside the loop are only: range-ok, the negated table lookup, value loop bound, the -bin test
 		bad := ""
-		for _, add := range core.CallsIn(fn, func(_ *ssa.Call, ci core.CallInfo) bool { return ci.Is("net/http.Header.Add") || ci.Is("net/http.Header.Set") }) {
+		for _, add := range core.CallsIn(fn, func(_ *ssa.Call, ci core.CallInfo) bool {
+			return ci.Is("net/http.Header.Add") || ci.Is("net/http.Header.Set")
+		}) {
 			for _, ef := range core.DominatingFacts(add) {
 				f := ef.Fact
 				switch {
@@ -1283,100 +1285,14 @@ func c03Verbatim(c *core.Ctx) {
 			continue
 		}
 		bad, undec := "", ""
-		seen := map[ssa.Value]bool{}
-		var trace func(v ssa.Value)
-		trace = func(v ssa.Value) {
-			if v == nil || seen[v] || bad != "" {
-				return
-			}
-			seen[v] = true
-			for _, o := range core.Origins(v) {
-				if o != v && seen[o] {
-					continue
-				}
-				seen[o] = true
-				switch x := o.(type) {
-				case *ssa.Parameter, *ssa.Lookup, *ssa.Alloc, *ssa.FreeVar, *ssa.MakeMap:
-				case *ssa.Const:
-					if !x.IsNil() {
-						bad = "a constant is put into the output in place of the input's value"
-					}
-				case *ssa.Phi:
-					for _, e := range x.Edges {
-						trace(e)
-					}
-				case *ssa.Convert:
-					trace(x.X)
-				case *ssa.ChangeType:
-					trace(x.X)
-				case *ssa.Slice:
-					if isStringish(x.X.Type()) && x.Low == nil && x.High == nil {
-						trace(x.X)
-					} else if _, isStr := x.X.Type().Underlying().(*types.Basic); isStr || x.Low != nil || x.High != nil {
-						bad = "a sub-string / sub-slice of the input's value is put into the output"
-					} else {
-						trace(x.X)
-					}
-				case *ssa.Extract:
-					switch t := x.Tuple.(type) {
-					case *ssa.Next:
-						// range element
-					case *ssa.Call:
-						ci := core.InfoOf(&t.Call)
-						if ci.Pkg == "encoding/base64" && (ci.Name == "DecodeString" || ci.Name == "EncodeToString") {
-							trace(t.Call.Args[len(t.Call.Args)-1])
-						} else {
-							bad = "the value passes through " + ci.Full() + " on its way to the output"
-						}
-					case *ssa.TypeAssert:
-						trace(t.X)
-					default:
-						undec = fmt.Sprintf("value extracted from %T", x.Tuple)
-					}
-				case *ssa.Call:
-					if b, ok := x.Call.Value.(*ssa.Builtin); ok && b.Name() == "append" {
-						for _, a := range x.Call.Args {
-							if els, ok := core.VariadicArgs(a); ok && len(els) > 0 {
-								for _, e := range els {
-									trace(e)
-								}
-							} else {
-								trace(a)
-							}
-						}
-						continue
-					}
-					ci := core.InfoOf(&x.Call)
-					if ci.Pkg == "encoding/base64" && (ci.Name == "DecodeString" || ci.Name == "EncodeToString") {
-						trace(x.Call.Args[len(x.Call.Args)-1])
-					} else {
-						bad = "the value passes through " + ci.Full() + " on its way to the output"
-					}
-				case *ssa.UnOp:
-					if x.Op != token.MUL {
-						undec = "unary operation on a value"
-						continue
-					}
-					switch a := x.X.(type) {
-					case *ssa.IndexAddr:
-						trace(a.X) // element of a container: where does the container come from
-					case *ssa.FieldAddr:
-						// field of an input object / local accumulator
-					default:
-						// a cell whose stores Origins could not resolve (captured): not expected here
-						undec = fmt.Sprintf("load through %T", x.X)
-					}
-				case *ssa.BinOp:
-					bad = "the value is concatenated/combined (" + x.Op.String() + ") before it is put into the output"
-				case *ssa.Index:
-					bad = "a single byte of the value is put into the output"
-				default:
-					undec = fmt.Sprintf("%T", o)
-				}
-			}
-		}
 		for _, sv := range sinks {
-			trace(sv)
+			b, u := traceVerbatim(sv, base64Coder)
+			if b != "" {
+				bad = b
+			}
+			if u != "" {
+				undec = u
+			}
 		}
 		switch {
 		case bad != "":
@@ -1387,4 +1303,115 @@ func c03Verbatim(c *core.Ctx) {
 			c.Ok(key, fn.Pos(), "%d output value(s): each is an input element, unchanged or base64-coded", len(sinks))
 		}
 	}
+}
+
+// base64Coder: the only value transformation the metadata converters may apply.
+func base64Coder(call *ssa.Call) (ssa.Value, bool) {
+	ci := core.InfoOf(&call.Call)
+	if ci.Pkg == "encoding/base64" && (ci.Name == "DecodeString" || ci.Name == "EncodeToString") {
+		return call.Call.Args[len(call.Call.Args)-1], true
+	}
+	return nil, false
+}
+
+// traceVerbatim follows a string / []string value backwards to where it comes
+// from and reports the first operation on the way that changes it (bad) or
+// that the tracer does not understand (undec). Transparent: φ, conversions,
+// full slices, appends (all operands), element and field reads, range
+// elements, and the calls accepted by allow (which names the operand to
+// continue with).
+func traceVerbatim(root ssa.Value, allow func(*ssa.Call) (ssa.Value, bool)) (bad, undec string) {
+	seen := map[ssa.Value]bool{}
+	var trace func(v ssa.Value)
+	trace = func(v ssa.Value) {
+		if v == nil || seen[v] || bad != "" {
+			return
+		}
+		seen[v] = true
+		for _, o := range core.Origins(v) {
+			if o != v && seen[o] {
+				continue
+			}
+			seen[o] = true
+			switch x := o.(type) {
+			case *ssa.Parameter, *ssa.Lookup, *ssa.Alloc, *ssa.FreeVar, *ssa.MakeMap:
+			case *ssa.Const:
+				if !x.IsNil() {
+					bad = "a constant is put into the output in place of the input's value"
+				}
+			case *ssa.Phi:
+				for _, e := range x.Edges {
+					trace(e)
+				}
+			case *ssa.Convert:
+				trace(x.X)
+			case *ssa.ChangeType:
+				trace(x.X)
+			case *ssa.MakeInterface:
+				trace(x.X)
+			case *ssa.Slice:
+				_, isStr := x.X.Type().Underlying().(*types.Basic)
+				if x.Low != nil || x.High != nil || isStr && (x.Low != nil || x.High != nil) {
+					bad = "a sub-string / sub-slice of the input's value is put into the output"
+				} else {
+					trace(x.X)
+				}
+			case *ssa.Extract:
+				switch t := x.Tuple.(type) {
+				case *ssa.Next:
+					// range element
+				case *ssa.Call:
+					if next, ok := allow(t); ok {
+						trace(next)
+					} else {
+						bad = "the value passes through " + core.InfoOf(&t.Call).Full() + " on its way to the output"
+					}
+				case *ssa.TypeAssert:
+					trace(t.X)
+				default:
+					undec = fmt.Sprintf("value extracted from %T", x.Tuple)
+				}
+			case *ssa.Call:
+				if b, ok := x.Call.Value.(*ssa.Builtin); ok && b.Name() == "append" {
+					for _, a := range x.Call.Args {
+						if els, ok := core.VariadicArgs(a); ok && len(els) > 0 {
+							for _, e := range els {
+								trace(e)
+							}
+						} else {
+							trace(a)
+						}
+					}
+					continue
+				}
+				if next, ok := allow(x); ok {
+					trace(next)
+				} else {
+					bad = "the value passes through " + core.InfoOf(&x.Call).Full() + " on its way to the output"
+				}
+			case *ssa.UnOp:
+				if x.Op != token.MUL {
+					undec = "unary operation on a value"
+					continue
+				}
+				switch a := x.X.(type) {
+				case *ssa.IndexAddr:
+					trace(a.X) // element of a container: where does the container come from
+				case *ssa.FieldAddr:
+					// field of an input object / local accumulator
+				default:
+					undec = fmt.Sprintf("load through %T", x.X)
+				}
+			case *ssa.Field:
+			case *ssa.BinOp:
+				bad = "the value is concatenated/combined (" + x.Op.String() + ") before it is put into the output"
+			case *ssa.Index:
+				bad = "a single byte of the value is put into the output"
+			default:
+				undec = fmt.Sprintf("%T", o)
+			}
+		}
+	}
+	trace(root)
+	return
 }
